@@ -534,7 +534,7 @@ def main():
     big, small = (2, 4), (1, 3, 5, 6, 7)
     for gi in range(1, 8):                       # shipped geometries unchanged
         cases.append(file_case(rnd, idx, gi, False)); idx += 1
-    nvar_small, nvar_big, nrect = (3, 1, 600) if tier == 'quick' else (40, 16, 12000)
+    nvar_small, nvar_big, nrect = (5, 2, 1500) if tier == "quick" else (100, 40, 40000)
     for gi in big:
         for _ in range(nvar_big):
             cases.append(file_case(rnd, idx, gi, True)); idx += 1
@@ -549,7 +549,7 @@ def main():
                                                        1 if cases[i]['kind'] == 'file' else 2, i))
     nproc = min(16, os.cpu_count() or 1)
     results = [None] * len(cases)
-    with mp.Pool(nproc) as pool:
+    with mp.Pool(nproc, maxtasksperchild=200) as pool:
         for i, res in zip(order, pool.imap(run_case, [cases[i] for i in order], chunksize=1)):
             results[i] = res
     evals = dict((c, 0) for c in CONTRACTS)
